@@ -92,13 +92,13 @@ FLAG_MASK = (
 )
 
 _RE_PATHLIB_DOT_NORM = (
-    re.compile(r'(?:((?<=^)|(?<=/))\.(?:/|$))+'),
-    re.compile(br'(?:((?<=^)|(?<=/))\.(?:/|$))+')
+    re.compile(r'(?:((?<=^)|(?<=/))\.(?:/|\Z))+'),
+    re.compile(br'(?:((?<=^)|(?<=/))\.(?:/|\Z))+')
 )  # type: tuple[Pattern[str], Pattern[bytes]]
 
 _RE_WIN_PATHLIB_DOT_NORM = (
-    re.compile(r'(?:((?<=^)|(?<=[\\/]))\.(?:[\\/]|$))+'),
-    re.compile(br'(?:((?<=^)|(?<=[\\/]))\.(?:[\\/]|$))+')
+    re.compile(r'(?:((?<=^)|(?<=[\\/]))\.(?:[\\/]|\Z))+'),
+    re.compile(br'(?:((?<=^)|(?<=[\\/]))\.(?:[\\/]|\Z))+')
 )  # type: tuple[Pattern[str], Pattern[bytes]]
 
 
